@@ -184,6 +184,20 @@ def bite(c, a, b):
     return z3.If(c, toz(a), toz(b))
 
 
+_FRESH_MEMO = {}
+
+
+def fresh_for(tag, *terms):
+    """an unconstrained Bool that is a FUNCTION of the given terms: the same (tag, terms) always yields the same constant, so two
+    interpretations of the same computation produce identical terms"""
+    key = (tag,) + tuple(t.get_id() if is_z(t) else repr(t) for t in terms)
+    hit = _FRESH_MEMO.get(key)
+    if hit is None:
+        hit = (z3.FreshConst(z3.BoolSort(), tag), terms)
+        _FRESH_MEMO[key] = hit
+    return hit[0]
+
+
 def inf_is0(i):
     return (i == 0) if not is_z(i) else (i == 0)
 
@@ -598,7 +612,7 @@ def cmp(op, a, b, force=False):
     okk = band(oa, ob)
     if okk is True:
         return DEC.decide(r)
-    u = z3.FreshConst(z3.BoolSort(), "cmpnan")
+    u = fresh_for("cmpnan_" + op, toz(okk), r)
     return z3.If(toz(okk), r, u)
 
 
@@ -645,7 +659,7 @@ def isnan(ctx, a):
     if o is False and not is_z(i):
         return i == 0
     # not provably defined: nan-ness unknown unless definitely NaN / infinite
-    u = z3.FreshConst(z3.BoolSort(), "isnan")
+    u = fresh_for("isnan", toz(o), toz(i), t if is_z(t) else toreal(t))
     return bor(dn, z3.And(z3.Not(toz(o)), toz(i) == 0, u))
 
 
@@ -656,7 +670,7 @@ def isfinite(ctx, a):
         return i == 0
     if o is False:
         return False
-    u = z3.FreshConst(z3.BoolSort(), "isfin")
+    u = fresh_for("isfin", toz(o), toz(i), t if is_z(t) else toreal(t))
     r = z3.And(toz(i) == 0, z3.Or(toz(o), u)) if not (o is True) else (toz(i) == 0)
     return band(bnot(dn), r)
 
